@@ -38,6 +38,27 @@ CHECKS["C04"] = ("model_checking",
     "TLC; hook events (VIROCON_VERIF=1) bound to truth by recounting on the sample; exact ties of the tolerance test accept either decision; without hooks the check degrades "
     "to API-level clauses (says so in evidence)",
     "DESIGN.md §4 C04")
+CHECKS["C05"] = ("model_checking",
+    "TLC enumerates the complete (family, override subset, method, argument kind, passing style) product and emits it; every case is executed on the real classes and judged by TLC (coverage of the product asserted by TLC); tabulated cdf/pdf/icdf laws judged by TLC against mpmath closed forms of the documented formulas",
+    "Parameter routing is a finite case analysis: TLC (ParamRouting.tla, scenario override) enumerates all 1632 cases for 10 families and the trace spec requires exactly that set to have been "
+    "executed with bitwise-equal results (mutation configs must violate). The analytic half (Monotone, Range01, PdfNonNeg, PdfZeroOutsideSupport, round trips, PdfIsDerivative, "
+    "MatchesDocumentedFormula, ArrayLikeKindsAgree, NormFitMoments) is exploration-strength: TLC-chosen parameter classes concretised with seeded values, tables judged in TLA+ (DistLawsOps.tla).",
+    "TLC; harness/reference.py (mpmath 30-digit closed forms written from the documented formulas; von Mises cdf by quadrature); parameter vectors are sampled, not exhausted; tolerances in spec/DistLawsOps.tla",
+    "DESIGN.md §4 C05")
+CHECKS["C08"] = ("model_checking",
+    "TLC enumerates every (family, fixed/dependent partition, chain kind, call shape, method) case (ParamRouting.tla scenario cond), each executed on real ConditionalDistribution objects and judged by TLC with coverage asserted",
+    "Finite case analysis over families x non-empty dependent sets x plain/default/chained dependence callables x scalar/vector call shapes x pdf/cdf/icdf/draw_sample: 3712 cases all executed; "
+    "the conditional object is compared with a fresh template constructed with the resolved values element by element (CondEqualsTemplateAtValues, VectorisedEqualsPointwise, "
+    "ChainedSameGiven, ResultShape); three mutation configs must violate.",
+    "TLC; comparison is bitwise/1e-13 relative on the same scipy evaluations; sampling compared under equal seeds",
+    "DESIGN.md §4 C08")
+CHECKS["C11"] = ("model_checking",
+    "TLC enumerates the life cycle NewDist -> Eval -> FitDist -> re-fit for every (family, fixed subset, fit method, data kind) with the specified outcome table; every case executed and judged by TLC with coverage asserted",
+    "Finite product of families x proper fixed subsets x {mle, lsq, wlsq} x {own, other} data: 348 life cycles + 48 conditional cases executed on the real classes; TLC requires the specified "
+    "outcome (fit succeeds / NotImplementedError), FixedAtConstruction, EvalUsesFixed, FixedStable (1e-12 relative, action property in the model), FreeEstimated, FixedSameForAllGiven; "
+    "mutation configs (ctor ignores f_, bad fit keyword, overwrite) must violate.",
+    "TLC; the Supports(fam, method, F) table is transcribed from the documented behaviour (lsq only for exponentiated Weibull with F in {{}, {delta}})",
+    "DESIGN.md §4 C11")
 
 NOT_YET = {}
 
